@@ -92,6 +92,11 @@ impl InstructionGenerator {
         is_known_positive: bool,
         pos: Position,
     ) {
+        // If the evaluation of the bounds or the step fails and the error handler resumes
+        // at the next statement, skip the loop. Its body cannot run without its register frame.
+        self.jump("for-loop", pos);
+        self.mark_statement_address();
+        self.jump("out-of-for", pos);
         // loop point
         self.label("for-loop", pos);
         if is_known_positive {
